@@ -14,6 +14,12 @@ struct C17 {
     regs: HashMap<String, BlockRanges>,
 }
 
+/// the generator's shadow values are computed with the real code; a panic there must not
+/// stop generation (the op is still emitted and the panic is then observed by `run`)
+fn quiet<T>(f: impl FnOnce() -> T) -> Result<T, ()> {
+    std::panic::catch_unwind(std::panic::AssertUnwindSafe(f)).map_err(|_| ())
+}
+
 pub fn show_ranges(rs: &BlockRanges) -> String {
     let v: Vec<String> = rs.as_ref().iter().map(|r| format!("{}-{}", r.start(), r.end())).collect();
     format!("[{}]", v.join(","))
@@ -229,11 +235,15 @@ impl C17 {
                 }
                 13 => {
                     out.op(format!("headn x={x} n={n} d={}", names[k]), &format!("{tag}/headn"), nt);
-                    shadow[k] = hook::headn(&shadow[i], n);
+                    if let Ok(v) = quiet(|| hook::headn(&shadow[i], n)) {
+                        shadow[k] = v;
+                    }
                 }
                 14 => {
                     out.op(format!("tailn x={x} n={n} d={}", names[k]), &format!("{tag}/tailn"), nt);
-                    shadow[k] = hook::tailn(&shadow[i], n);
+                    if let Ok(v) = quiet(|| hook::tailn(&shadow[i], n)) {
+                        shadow[k] = v;
+                    }
                 }
                 15 => {
                     out.op(format!("pop_head x={x}"), &format!("{tag}/pop_head"), nt);
@@ -245,7 +255,9 @@ impl C17 {
                 }
                 17 => {
                     out.op(format!("edges x={x} d={}", names[k]), &format!("{tag}/edges"), nt);
-                    shadow[k] = hook::edges(&shadow[i]);
+                    if let Ok(v) = quiet(|| hook::edges(&shadow[i])) {
+                        shadow[k] = v;
+                    }
                 }
                 18 => out.op(format!("partitions x={x}"), &format!("{tag}/partitions"), nt),
                 19 => out.op(format!("left_of x={x} h={hh}"), &format!("{tag}/left_of"), nt),
